@@ -183,6 +183,23 @@ class Extractor:
         body = t[lb:end]
         if newname:
             sig = re.sub(rf"fn {re.escape(name)}\b", f"fn {newname}", sig, count=1)
+        fb = getattr(self, "l0_fallback", {})
+        if name in fb:
+            # an L0 helper whose contract a Kani unit discharges bit-precisely: when its body cannot be verified HERE any more (rewritten
+            # with other bit operations: the proof hints no longer fit, or their anchor is gone) the unit falls back to the ASSUMED
+            # contract -- a failed proof of a helper is "undecided here", and the Kani unit named in the evidence decides it
+            stub = lambda why: ("#[verifier::external_body] // assumed contract (" + why + "); discharged by Kani unit " + fb[name] + "\n"
+                                + self._assemble(sig, contract.split("//@before")[0], "{ unimplemented!() }", None, f"{rel}::{name}", None))
+            if name in getattr(self, "assume_fns", ()):
+                self.rewrites.append(f"{rel}::{name}: body NOT verified in this unit (proof of the real body failed or its hint anchor is lost); contract assumed here, discharged by Kani unit {fb[name]}")
+                return stub("the real body could not be verified in this unit")
+            try:
+                self.functions.append(f"{rel}::{name}")
+                return self._assemble(sig, contract, body, loops, f"{rel}::{name}", opts)
+            except Undecided as e:
+                self.functions.pop()
+                self.rewrites.append(f"{rel}::{name}: {str(e)[:160]}; contract assumed here, discharged by Kani unit {fb[name]}")
+                return stub("lost proof-hint anchor")
         self.functions.append(f"{rel}::{name}")
         return self._assemble(sig, contract, body, loops, f"{rel}::{name}", opts)
 
